@@ -298,6 +298,9 @@ class Extractor:
                 s2["$" + st.targets[0].id] = v
                 out.append(s2)
             return out
+        if isinstance(st, ast.Expr) and isinstance(st.value, ast.Call) and \
+                canon(st.value.func).startswith(("log.", "logging.", "print")):
+            return states
         if isinstance(st, ast.Expr) and isinstance(st.value, ast.Call):
             call = st.value
             tgt = self.resolve_call(call, owner)
